@@ -65,3 +65,66 @@ Qed.
 (** non-vacuity: trees that were never persisted have no hash links at all *)
 Lemma empty_root_allh s kind (m : kmast) : m_root _ _ m = LNil -> root_allh s kind m.
 Proof. unfold root_allh. intros ->. constructor. Qed.
+
+(** * C07: node diff over one store, and what a replica needs *)
+From Mast Require Import DiffLinks.
+
+Theorem k_diff_links s kind bf (mo mn : kmast) lo ln :
+  kcanon bf mo lo -> kcanon bf mn ln -> root_allh s kind mo -> root_allh s kind mn ->
+  oks (diff _ _ kcmp bytes_eqb (klayer bf) (Some mo) mn)
+      (fun r => let NN := names_l key val (m_root _ _ mn) in let NO := names_l key val (m_root _ _ mo) in
+                incl (ads key val r) NN /\ incl NN (ads key val r ++ NO) /\ incl (rms key val r) NO /\ incl NO (rms key val r ++ NN)).
+Proof.
+  intros Co Cn Ho Hn.
+  destruct (canon_root_fits key val kcmp (klayer bf) bf mo lo Co) as [Fo _].
+  destruct (canon_root_fits key val kcmp (klayer bf) bf mn ln Cn) as [Fn _].
+  assert (crefl : forall k, kcmp k k = Eq) by (intros k; apply kcmp_eq; reflexivity).
+  apply (diff_links key val kcmp bytes_eqb (klayer bf) crefl bytes_eqb_refl (sto s kind) (sto_hered s kind) (sto_fun s kind) (Some mo) mn Hn Fn).
+  intros t E. inversion E; subst t. split; assumption.
+Qed.
+
+(** a stored version can be rebuilt in any store that agrees with the source on every name it reaches *)
+Lemma sto_transfer s s2 kind : forall (c : knode) h, sto s kind h c ->
+  (forall x b, In x (h :: names_n key val c) -> Store.lookup s x = Some b -> Store.lookup s2 x = Some b) ->
+  sto s2 kind h c.
+Proof.
+  induction c as [d sr l0 es H0 Hes] using node_ind'. intros h H Hx.
+  inversion H as [h' l0' es' Hl Hs0 Hses Hok Hsm Hn]; subst.
+  rewrite names_n_eq in Hx.
+  assert (Hlk : forall l : klink, PL key val (fun c => forall h, sto s kind h c ->
+                   (forall x b, In x (h :: names_n key val c) -> Store.lookup s x = Some b -> Store.lookup s2 x = Some b) -> sto s2 kind h c) l ->
+                 sto_l s kind l -> (forall x b, In x (names_l key val l) -> Store.lookup s x = Some b -> Store.lookup s2 x = Some b) -> sto_l s2 kind l).
+  { intros l Hp Hl' Hxl. inversion Hl' as [|h2 c2 Hc2]; subst; [constructor|]. constructor. cbn [PL] in Hp. apply Hp; [exact Hc2|exact Hxl]. }
+  constructor; try assumption.
+  - apply (Hx h); [left; reflexivity|exact Hl].
+  - apply (Hlk l0 H0 Hs0). intros x b Hin. apply Hx. right. apply in_or_app. left. exact Hin.
+  - assert (Hx' : forall x b, In x (flat_map (fun e : entry key val => names_l key val (elink _ _ e)) es) -> Store.lookup s x = Some b -> Store.lookup s2 x = Some b).
+    { intros x b Hin. apply Hx. right. apply in_or_app. right. exact Hin. }
+    clear -Hes Hses Hlk Hx'. induction Hes as [|e r He _ IH]; [constructor|]. inversion Hses as [|? ? Hse Hsr]; subst. constructor.
+    + apply (Hlk _ He Hse). intros x b Hin. apply Hx'. cbn [flat_map]. apply in_or_app. left. exact Hin.
+    + apply IH; [exact Hsr|]. intros x b Hin. apply Hx'. cbn [flat_map]. apply in_or_app. right. exact Hin.
+Qed.
+
+(** Copying the nodes reported as added into a store that holds the old version makes the new
+    version loadable there: every name the new version reaches then resolves to the same bytes as in
+    the source store, so [sto] (hence LoadMast, by Reload.load_canon) holds in the replica. *)
+Theorem k_replica_sync s s1 s2 kind bf (mo mn : kmast) lo ln hn cn r t :
+  kcanon bf mo lo -> kcanon bf mn ln -> root_allh s kind mo -> root_allh s kind mn ->
+  m_root _ _ mn = LHash hn cn ->
+  diff _ _ kcmp bytes_eqb (klayer bf) (Some mo) mn = (t, Ok r) ->
+  (* the replica holds the old version ... *)
+  (forall x b, In x (names_l key val (m_root _ _ mo)) -> Store.lookup s x = Some b -> Store.lookup s1 x = Some b) ->
+  (* ... and s2 is s1 plus the added nodes *)
+  extends s1 s2 ->
+  (forall x b, In x (ads key val r) -> Store.lookup s x = Some b -> Store.lookup s2 x = Some b) ->
+  sto s2 kind hn cn.
+Proof.
+  intros Co Cn Ho Hn Er E Hold Hext Hadd.
+  destruct (k_diff_links s kind bf mo mn lo ln Co Cn Ho Hn) as (t' & r' & E' & _ & Hcompl & _ & _).
+  rewrite E in E'. assert (r' = r) by congruence. subst r'. cbn zeta in Hcompl.
+  unfold root_allh in Hn. rewrite Er in Hn, Hcompl. inversion Hn as [| |h c Hs]; subst.
+  apply (sto_transfer s s2 kind cn hn Hs). intros x b Hin Hl.
+  specialize (Hcompl x Hin). apply in_app_or in Hcompl. destruct Hcompl as [Ha|Ho'].
+  - exact (Hadd x b Ha Hl).
+  - apply Hext. exact (Hold x b Ho' Hl).
+Qed.
